@@ -1284,6 +1284,8 @@ class MiniInterp:
             raise Unknown("comparison")
 
     def getattr(self, obj, attr, fi, node):
+        if attr == "__dict__" and isinstance(obj, Sym) and obj.cls is not None and not isinstance(obj, SymDict):
+            return obj.fields            # the instance's own attribute dictionary (live)
         if attr == "__class__" and not (isinstance(obj, Sym) and ("__class__" in obj.fields or obj.cls is None)):
             return self.type_of(obj)
         if isinstance(obj, SymDict):
